@@ -238,6 +238,11 @@ class Producer(object):
         except Exception:
             return fail()
 
+        if self.stopping:
+            # stop() has failed everything that was outstanding and nothing
+            # is dispatched any more: a request queued now would never fire.
+            return fail(Failure(CancelledError(request_sent=False, message="Producer has been stopped")))
+
         d = Deferred(self._cancel_send_messages)
         self._batch_reqs.append(SendRequest(topic, key, msgs, d))
         self._waitingMsgCount += msg_cnt
